@@ -696,6 +696,7 @@ func (e *c15Env) run(tag string, f *c15Filter, cf *c15Compiled, inv c15Inv, base
 	for _, en := range f.Entries {
 		if en.Form == 4 && cfgDecides {
 			c.Count("runs_config_decides_with_aliased_ignore_list", 1)
+			c.Count(fmt.Sprintf("runs_config_decides_with_aliased_ignore_list_via_%d", en.Via), 1)
 			break
 		}
 	}
@@ -1349,6 +1350,9 @@ func runC15(r *Run) {
 		"runs_stdin_without_repository_but_repository_config_present",
 		"runs_discriminating_alias_element_value_vs_anchor_name", "runs_config_decides_with_aliased_ignore_list"} {
 		need(r.Counter(k) >= int64(r.Q(3, 40)), fmt.Sprintf("coverage counter %s = %d, need %d", k, r.Counter(k), r.Q(3, 40)))
+	}
+	if mk := r.Counter("runs_config_decides_with_aliased_ignore_list_via_1") + r.Counter("runs_config_decides_with_aliased_ignore_list_via_3"); mk < int64(r.Q(3, 40)) {
+		need(false, fmt.Sprintf("only %d deciding runs whose paths entry takes its ignore list through a YAML merge key", mk))
 	}
 	need(r.Counter("runs_same_position_group_remains_and_earlier_collected_diagnostic_filtered") >= int64(r.Q(50, 1000)), fmt.Sprintf("only %d runs in which two or more remaining diagnostics share a position while a diagnostic collected before them is filtered", r.Counter("runs_same_position_group_remains_and_earlier_collected_diagnostic_filtered")))
 	nGlob := int64(r.Q(3, 40))
